@@ -109,6 +109,10 @@ def run(ctx) -> None:
   ctx.rule('R5', 'handlers around service-handle calls treat KeyError-like classes and RpcError alike', 1)
   ctx.rule('R6', 'error details passed to handle_exception are bounded scalars, never whole messages', 10)
   ctx.rule('R7', 'every handle_exception call in an RPC method passes that RPC\'s context', 10)
+  ctx.rule('R10', 'handlers around algorithm (Pythia) calls do not discriminate on the exception class: a Python class does not '
+           'survive the gRPC hop to a remote Pythia', 1)
+  ctx.rule('R9', 'no guard refusal is issued inside a try block whose handler can catch the in-process terminator (locally the '
+           'refusal would be swallowed, over gRPC the aborted status sticks)', 10)
   ctx.rule('R8', 'transport is transparent: no interceptors / per-call deadlines / load shedding on channels, stubs and servers', 3)
   ctx.trust('a non-RpcError exception escaping a servicer method is reported to a gRPC client as '
             'StatusCode.UNKNOWN; in-process it propagates as its own class')
@@ -123,6 +127,7 @@ def run(ctx) -> None:
   r4_duck(ctx, svc)
   r6_details(ctx, svc, he)
   r7_context_passed(ctx, svc, he)
+  r10_algorithm_error_classes(ctx, svc)
   r8_transparent_transport(ctx)
 
 
@@ -388,6 +393,36 @@ def r6_details(ctx, svc: Svc, he: FuncInfo) -> None:
 
 
 # ----------------------------------------------------------------------- R7
+def r10_algorithm_error_classes(ctx, svc: Svc) -> None:
+  n = 0
+  for name, fi in svc.rpcs.items():
+    for t in ast.walk(fi.node):
+      if not isinstance(t, ast.Try):
+        continue
+      calls = [c for b in t.body for c in flow.calls_in(b) if isinstance(c.func, ast.Attribute) and c.func.attr in ('Suggest', 'EarlyStop')]
+      if not calls:
+        continue
+      n += 1
+      bad = None
+      for h in t.handlers:
+        names = ctx.lattice.handler_names(fi.module, h) if h.type is not None else ['BaseException']
+        if not all(x in ('Exception', 'BaseException', 'grpc.RpcError') for x in names):
+          bad = bad or (h, f'`except {unparse(h.type, 40)}` singles out a Python exception class')
+        if h.name:
+          for x in ast.walk(h):
+            if isinstance(x, ast.Call) and dotted(x.func) in ('isinstance', 'issubclass') and x.args \
+                and any(isinstance(y, ast.Name) and y.id == h.name for y in ast.walk(x.args[0])):
+              bad = bad or (x, f'`{unparse(x, 60)}` tests the class of the caught exception')
+            if isinstance(x, ast.Call) and dotted(x.func) == 'type' and x.args and isinstance(x.args[0], ast.Name) and x.args[0].id == h.name:
+              bad = bad or (x, f'`{unparse(x, 60)}` inspects the class of the caught exception')
+      ctx.check(bad is None, 'R10', f'{name}: handlers around {unparse(calls[0].func, 40)}()', where(fi, t),
+                'every failure of the algorithm is treated alike',
+                (bad[1] if bad else '') + ': with Pythia in another process the exception arrives as a grpc.RpcError and the branch is never taken, '
+                'so the study ends in a different state than with an in-process Pythia', construct=f'{name}:algorithm-error-class', func=fi.qualname)
+  if n < 1:
+    raise AnalysisError('no try block around an algorithm call found in the servicer')
+
+
 def r7_context_passed(ctx, svc: Svc, he: FuncInfo) -> None:
   """handle_exception(e, context): without the RPC's context the helper raises its *local* error class
   even inside a gRPC server, which the wire reports as UNKNOWN instead of the documented code."""
@@ -406,6 +441,20 @@ def r7_context_passed(ctx, svc: Svc, he: FuncInfo) -> None:
       for k in c.keywords:
         if len(hp) >= 2 and k.arg == hp[1]:
           passed = k.value
+      swallowed = None
+      for anc in ancestors(c):
+        if isinstance(anc, ast.Try) and any(any(y is c for y in ast.walk(b)) for b in anc.body):
+          for h in anc.handlers:
+            if ctx.lattice.catches(fi.module, h, 'vizier._src.service.grpc_util.LocalRpcError') == 'all' \
+                and not (h.body and isinstance(h.body[-1], ast.Raise)):
+              swallowed = h
+        if anc is fi.node:
+          break
+      ctx.check(swallowed is None, 'R9', f'{name}: handle_exception at line {c.lineno} is not caught again', where(fi, c),
+                'no enclosing handler catches the terminator',
+                f'the refusal is issued inside a try block whose handler `except {unparse(swallowed.type, 30) if swallowed is not None and swallowed.type is not None else ""}` '
+                'catches the in-process terminator (LocalRpcError) and carries on: the local deployment answers normally where the gRPC '
+                'deployment reports the aborted status - the two deployments differ', construct=f'{name}:terminator-caught', func=fi.qualname)
       ok = passed is not None and isinstance(passed, ast.Name) and passed.id == cpar
       ctx.check(ok, 'R7', f'{name}: handle_exception(.., {unparse(passed, 20) if passed is not None else "<missing>"}) at line {c.lineno}',
                 where(fi, c), 'the servicer context of this RPC is passed on',
